@@ -1098,8 +1098,9 @@ class ConvertInstance:
         ctx.visit(search_unneeded_bool_casts)
 
         def replace_temporaries(obj, access):
-            if obj in replacement_map:
-                return replacement_map[obj]
+            # follow chains of removed casts (bool(bool(x)))
+            while obj in replacement_map:
+                obj = replacement_map[obj]
 
             return obj
 
